@@ -166,9 +166,20 @@ def cross_field_doc(rng):
         out = list(dict.fromkeys(out))
         out.append("P\tp\t%s\t%s" % (",".join(s + "+" for s in segs), ovs))
         return out
-    if k == 2:      # beg <= end
-        b, e = rng.randint(0, 9), rng.randint(0, 9)
-        return ["S\tA\t10\t*", "S\tB\t10\t*", "E\t*\tA+\tB-\t%d\t%d\t0\t10$\t*" % (b, e)]
+    if k == 2:      # beg <= end, '$' on begin only together with end (and then on the same position)
+        b, e = rng.randint(0, 10), rng.randint(0, 10)
+        bs = "%d%s" % (b, rng.choice(["", "", "$"]))
+        es = "%d%s" % (e, rng.choice(["", "", "$"]))
+        rt = rng.choice(["E1", "E2", "Fs", "Ff"])
+        if rt == "E1":
+            l = "E\t*\tA+\tB-\t%s\t%s\t0\t10$\t*" % (bs, es)
+        elif rt == "E2":
+            l = "E\t*\tA+\tB-\t0\t10$\t%s\t%s\t*" % (bs, es)
+        elif rt == "Fs":
+            l = "F\tA\tread+\t%s\t%s\t0\t5\t*" % (bs, es)
+        else:
+            l = "F\tA\tread+\t0\t10$\t%s\t%s\t*" % (bs, es)
+        return ["S\tA\t10\t*", "S\tB\t10\t*", l]
     if k == 3:      # $ only on the last position
         slen = rng.randint(2, 9)
         p = rng.choice([slen, slen - 1, slen + 1, 0])
